@@ -58,6 +58,19 @@ def c03_sweep(ctx, n):
             fails.append({"key": f"covariance:{cls}" if okind == "random" else f"covariance:{okind}", "desc": f"get{field} not covariant under a common rigid motion (source orientation: {okind})",
                           "replay": {"class": cls, "field": field, "source_orientation_quat": src.orientation.as_quat().tolist(), "quat": Q.as_quat().tolist(), "t": t.tolist(),
                                      "max_abs_err": float(np.max(np.abs(f1 - exp))), "scale": sc, "source": repr(src.__dict__)[:600]}})
+        # position and orientation are honoured as "local frame placed in the global frame", path index by path index:
+        # the field at step m is R_m F_local(R_m^-1 (x - p_m)) with F_local the field of the same source at the identity pose
+        getf = magpy.getB if field == "B" else magpy.getH
+        base0 = src.copy(position=(0, 0, 0), orientation=None)
+        ok_place = True
+        for m_ in range(len(src._position)):
+            Rm, pm = src._orientation[m_], src._position[m_]
+            expm = Rm.apply(getf(base0, Rm.inv().apply(obs - pm), squeeze=False).reshape(-1, 3))
+            if not _close(f0[0, m_, 0].reshape(-1, 3), expm, sc, 1e-7):
+                ok_place = False
+        if not ok_place:
+            fails.append({"key": f"placement:{cls}", "desc": f"get{field} along a path is not the local field placed with that step's position and orientation",
+                          "replay": {"class": cls, "field": field, "path_length": len(src._position), "n_observers": len(obs)}})
     # nested compounds moved as a whole through the collection API (rotate about own centre / anchor, then move)
     for i in range(max(6, n // 6)):
         nps = np.random.default_rng(rng.randrange(2**31))
@@ -169,6 +182,25 @@ def c04_sweep(ctx, n):
     return fails, {"c04_cases": done, "c04_sensor_kinds": kinds}
 
 
+def custom_source(nps, path=1):
+    """CustomSource with its own field function (an affine map of the observer, different for every instance)"""
+    import magpylib as magpy
+
+    A, b = nps.uniform(-1, 1, (3, 3)), nps.uniform(-1, 1, 3)
+
+    def ff(field, observers, A=A, b=b):
+        out = np.asarray(observers) @ A.T + b
+        return out if field == "B" else out * 2.0
+
+    src = magpy.misc.CustomSource(field_func=ff)
+    if path > 1:
+        src.position = nps.uniform(-1, 1, (path, 3))
+        src.orientation = R.random(path, rng=nps)
+    else:
+        src.position, src.orientation = nps.uniform(-1, 1, 3), R.random(rng=nps)
+    return src
+
+
 def c05_sweep(ctx, n):
     import magpylib as magpy
 
@@ -183,7 +215,7 @@ def c05_sweep(ctx, n):
                 if depth > 0 and rng.random() < 0.35:
                     kids.append(tree(depth - 1))
                 else:
-                    s = make(rng.choice(CLASSES), nps, path=rng.choice([1, 1, 2]))
+                    s = make(rng.choice(CLASSES), nps, path=rng.choice([1, 1, 2])) if rng.random() < 0.75 else custom_source(nps, rng.choice([1, 1, 2]))
                     leaves_local.append(s)
                     kids.append(s)
             return magpy.Collection(*kids)
@@ -194,7 +226,7 @@ def c05_sweep(ctx, n):
             if rng.random() < 0.6:
                 e = tree(2)
             else:
-                e = make(rng.choice(CLASSES), nps, path=rng.choice([1, 2]))
+                e = make(rng.choice(CLASSES), nps, path=rng.choice([1, 2])) if rng.random() < 0.75 else custom_source(nps, rng.choice([1, 2]))
                 leaves_local.append(e)
             entries.append(e)
             per_entry.append(list(leaves_local))
